@@ -176,6 +176,7 @@ fn parse_strace(log: &str, wdir: &Path) -> Vec<Value> {
 struct RunObs {
     exit: i64,
     stdout: String,
+    stdout_bytes: Vec<u8>,
     sys: Vec<Value>,
     straced: bool,
 }
@@ -210,6 +211,7 @@ fn run_once(bin: &Path, wdir: &Path, argv: &[String], stdin: Option<&[u8]>, stra
     RunObs {
         exit: out.status.code().map(|c| c as i64).unwrap_or(-1),
         stdout: String::from_utf8_lossy(&out.stdout).to_string(),
+        stdout_bytes: out.stdout.clone(),
         sys,
         straced: strace,
     }
@@ -379,4 +381,114 @@ pub fn run_scenarios(scen_path: &Path, bin: &Path, work: &Path, out_dir: &Path, 
 
 pub fn default_bin() -> PathBuf {
     PathBuf::from("/verif/harness/target-cli/release/typstyle")
+}
+
+// ---------------------------------------------------------------------------------------------
+// C16: every front-end against the library, byte for byte
+
+fn lib_expected(text: &str, cfg: &Config) -> String {
+    match Typstyle::new(cfg.clone()).format_content(text) {
+        Ok(s) => s,
+        Err(_) => text.to_string(),
+    }
+}
+
+/// For each source x option set x front-end: sha of what the front-end produced and sha of what the
+/// library returns for the same text and configuration (the input itself when it is erroneous).
+pub fn run_frontends(sources: &[(String, String)], bin: &Path, work: &Path, out_dir: &Path, shards: usize, seed: u64) -> Value {
+    fs::create_dir_all(out_dir).unwrap();
+    let _ = fs::remove_dir_all(work);
+    fs::create_dir_all(work).unwrap();
+    let cols: [Option<usize>; 9] = [None, Some(0), Some(1), Some(20), Some(40), Some(79), Some(81), Some(120), Some(400)];
+    let tabs: [Option<usize>; 7] = [None, Some(0), Some(1), Some(3), Some(4), Some(8), Some(16)];
+    let results: Vec<Vec<String>> = sources
+        .par_iter()
+        .enumerate()
+        .map(|(idx, (id, text))| {
+            let mut evs = vec![];
+            let base = work.join(format!("f{idx}"));
+            // two option sets per source, chosen by hash (all combinations are covered across sources)
+            for k in 0..2u64 {
+                let hsel = h(id, &format!("opt{k}:{seed}"), cols.len() * tabs.len() * 2);
+                let st = Style { c: cols[hsel % cols.len()], t: tabs[(hsel / cols.len()) % tabs.len()], ro: hsel / (cols.len() * tabs.len()) == 1 };
+                let cfg = st.config();
+                let expect = lib_expected(text, &cfg);
+                let esha = sha_hex(&expect);
+                let mk = |fe: &str, got: Option<Vec<u8>>, exit: i64, esha: &str, elen: usize| -> String {
+                    let (gsha, glen) = match &got {
+                        Some(b) => (sha_hex(&String::from_utf8_lossy(b)), b.len()),
+                        None => ("none".to_string(), 0),
+                    };
+                    json!({"ev": "fe", "id": id, "sha": sha_hex(text), "fe": fe, "w": cfg.max_width, "tab": cfg.tab_spaces,
+                           "bl": 2, "ro": cfg.reorder_import_items, "outcome": "ok",
+                           "cli_sha": gsha, "cli_len": glen, "lib_sha": esha, "lib_len": elen, "exit": exit}).to_string()
+                };
+                let wdir = base.join(format!("o{k}"));
+                fs::create_dir_all(wdir.join("d/sub")).unwrap();
+                let argv = st.argv();
+                // file -> stdout
+                fs::write(wdir.join("a.typ"), text).unwrap();
+                let mut a1 = vec!["a.typ".to_string()];
+                a1.extend(argv.clone());
+                let ob = run_once(bin, &wdir, &a1, None, false, &wdir.join("x.log"));
+                evs.push(mk("file", Some(ob.stdout_bytes.clone()), ob.exit, &esha, expect.len()));
+                // stdin -> stdout
+                let ob = run_once(bin, &wdir, &argv, Some(text.as_bytes()), false, &wdir.join("x.log"));
+                evs.push(mk("stdin", Some(ob.stdout_bytes.clone()), ob.exit, &esha, expect.len()));
+                // three files concatenated (the source twice around a fixed formatted file)
+                fs::write(wdir.join("b.typ"), "= T\n").unwrap();
+                let mut a3 = vec!["a.typ".to_string(), "b.typ".to_string(), "a.typ".to_string()];
+                a3.extend(argv.clone());
+                let ob = run_once(bin, &wdir, &a3, None, false, &wdir.join("x.log"));
+                let mid = lib_expected("= T\n", &cfg);
+                let exp3 = format!("{expect}{mid}{expect}");
+                evs.push(mk("three", Some(ob.stdout_bytes.clone()), ob.exit, &sha_hex(&exp3), exp3.len()));
+                // in place
+                let mut ai = vec!["-i".to_string(), "a.typ".to_string()];
+                ai.extend(argv.clone());
+                let ob = run_once(bin, &wdir, &ai, None, false, &wdir.join("x.log"));
+                evs.push(mk("inplace", fs::read(wdir.join("a.typ")).ok(), ob.exit, &esha, expect.len()));
+                // format-all on a nested file
+                fs::write(wdir.join("d/sub/c.typ"), text).unwrap();
+                let mut aa = vec!["format-all".to_string(), "d".to_string()];
+                aa.extend(argv.clone());
+                let ob = run_once(bin, &wdir, &aa, None, false, &wdir.join("x.log"));
+                evs.push(mk("format-all", fs::read(wdir.join("d/sub/c.typ")).ok(), ob.exit, &esha, expect.len()));
+                // the width-only convenience function (what the wasm build exports)
+                if st.t.is_none() && !st.ro {
+                    let got = typstyle_core::format_with_width(text, cfg.max_width);
+                    evs.push(mk("format_with_width", Some(got.into_bytes()), 0, &esha, expect.len()));
+                }
+            }
+            let _ = fs::remove_dir_all(&base);
+            evs
+        })
+        .collect();
+    let mut writers: Vec<std::io::BufWriter<fs::File>> = (0..shards)
+        .map(|i| std::io::BufWriter::new(fs::File::create(out_dir.join(format!("shard-{:02}.ndjson", i))).unwrap()))
+        .collect();
+    let mut inputs = std::io::BufWriter::new(fs::File::create(out_dir.join("inputs.ndjson")).unwrap());
+    for (id, t) in sources {
+        writeln!(inputs, "{}", json!({"id": id, "sha": sha_hex(t), "text": t})).unwrap();
+    }
+    let mut n = 0u64;
+    let mut nt = 0u64;
+    for (i, evs) in results.into_iter().enumerate() {
+        for e in evs {
+            if !e.contains("\"fe\":\"format_with_width\"") {
+                nt += 1;
+            }
+            writeln!(writers[i % shards], "{}", e).unwrap();
+            n += 1;
+        }
+    }
+    for w in writers.iter_mut() {
+        w.flush().unwrap();
+    }
+    inputs.flush().unwrap();
+    let _ = fs::remove_dir_all(work);
+    let s = json!({"universe": "frontends", "elements": sources.len(), "events": n, "format_calls": n, "nontrivial_events": nt,
+                   "universe_stats": {}, "samples": [{"id": sources.first().map(|s| s.0.clone())}]});
+    fs::write(out_dir.join("summary.json"), s.to_string()).unwrap();
+    s
 }
